@@ -566,6 +566,9 @@ func (r *stageRun) exec(c *sCmd) string {
 			return "error"
 		}
 		return "ok"
+	case "prepare":
+		r.st.Prepare([]sts.Binned{r.binned(c)})
+		return "ok"
 	case "received":
 		if r.st.Received([]sts.Binned{r.binned(c)}) == 1 {
 			return "yes"
@@ -834,6 +837,10 @@ func stageMain(args []string) int {
 					v.Cmds = append([]sCmd{}, sc.Cmds[:ci+1]...)
 					v.Cmds[ci].Crash = &sCrash{Point: p, K: k}
 					v.Cmds = append(v.Cmds, sCmd{Op: "recover"})
+					// the sender polls what it had sent before it goes on
+					for _, n := range sc.U.Names {
+						v.Cmds = append(v.Cmds, sCmd{Op: "status", N: n})
+					}
 					// afterwards the sender asks and re-sends what is not held
 					v.Cmds = append(v.Cmds, sc.Cmds[ci+1:]...)
 					variants++
